@@ -40,6 +40,14 @@ inductive Name where
   | failedParts            -- storage.FailedPartsDirName
   deriving DecidableEq, Repr
 
+/-- the file names on disk (one tag family `tf1`) -/
+def PFile.fileName : PFile → String
+  | .mt => "meta.bin" | .primary => "primary.bin" | .timestamps => "timestamps.bin" | .fv => "fv.bin"
+  | .tf => "tf1.tf" | .tfm => "tf1.tfm" | .tagType => "tag.type" | .metadata => "metadata.json"
+
+def snapshotSuffix : String := ".snp"
+def tmpSuffix : String := ".tmp"
+
 abbrev Path := List Name
 abbrev Step := FS.Step Name
 abbrev St := FS.St Name
@@ -288,6 +296,7 @@ def toDelete (fixed : Bool) (t : Tree) (n : Name) : Bool :=
     match n with
     | .junkSnp _ => true
     | .tmp (.snp _) => fixed
+    | .tmp (.junkSnp _) => fixed
     | _ => false
 
 structure Scan where
